@@ -10,7 +10,7 @@ from __future__ import annotations
 import random
 import re
 
-from .. import mslab, msmodel as ms
+from .. import mslab, msmodel as ms, textgen
 from ..core import Result, split
 
 LEVEL = "exploration"
@@ -112,6 +112,8 @@ def _value(rng):
         return boundary_value(rng)
     if r < 0.12 and RECENT:
         return echo_value(rng)
+    if r < 0.20:
+        return textgen.text(rng, 1, 10)
     k = rng.choice([1, 1, 1, 2, 2, 3])
     v = "".join(rng.choice(FRAGS) for _ in range(k))
     if rng.random() < 0.02:
